@@ -53,6 +53,7 @@ class TracepointConfigService:
     def __init__(self) -> None:
         """Create new tracepoint config service."""
         self._custom: List['Trigger'] = []
+        self._custom_ids: Dict[str, 'Trigger'] = {}
         self._tracepoint_config: List['Trigger'] = []
         self._current_hash = None
         self._last_update = 0
@@ -167,13 +168,17 @@ class TracepointConfigService:
         :param metrics: the tracepoint metrics
         :return: the new TracePointConfig
         """
-        config = build_trigger(str(uuid.uuid4()), path, line, args, watches, metrics)
+        tp_id = str(uuid.uuid4())
+        config = build_trigger(tp_id, path, line, args, watches, metrics)
         if config is None:
             # do not keep something we cannot interpret (e.g. unknown stage): it would break every later update
             raise ValueError("Cannot interpret tracepoint arguments: %s" % args)
-        self._custom.append(config)
+        with self._update_lock:
+            self._custom.append(config)
+            self._custom_ids[tp_id] = config
         self.__trigger_update(None, None)
-        return config.id
+        # the id of this tracepoint, not of its location: several tracepoints can be registered on the same line
+        return tp_id
 
     def remove_custom(self, _id: str):
         """
@@ -181,8 +186,10 @@ class TracepointConfigService:
 
         :param _id: the id of the config to remove
         """
-        for idx, cfg in enumerate(self._custom):
-            if cfg.id == _id:
-                del self._custom[idx]
-                self.__trigger_update(None, None)
+        with self._update_lock:
+            config = self._custom_ids.pop(_id, None)
+            if config is None:
+                # not known, or already removed
                 return
+            self._custom = [cfg for cfg in self._custom if cfg is not config]
+        self.__trigger_update(None, None)
